@@ -37,27 +37,25 @@ def r1_single_state(ctx):
             r.inst("struct I18nContext", "locale_signal: RwSignal<L> + a PhantomData marker")
         else:
             r.viol("R1:I18nContext#fields", "fields are %s: more than one place can hold a locale" % fields, file=C)
+    from rules.common import msum
+    prog = ctx.mir("main")
     want = {
-        "get_locale": "{self.locale_signal.get}",
-        "get_locale_untracked": "{self.locale_signal.get_untracked}",
-        "set_locale": "{self.locale_signal.setlang}",
-        "set_locale_untracked": "{letmutguard=self.locale_signal.write_untracked;*guard=lang}",
-        "get_keys": "{LocaleKeys::from_localeself.get_locale}",
-        "get_keys_untracked": "{LocaleKeys::from_localeself.get_locale_untracked}",
+        "get_locale": ("Get::get(p1.locale_signal)", []),
+        "get_locale_untracked": ("GetUntracked::get_untracked(p1.locale_signal)", []),
+        "set_locale": ("Set::set(p1.locale_signal, p2)", []),
+        "set_locale_untracked": ("'()'", ["DerefMut::deref_mut(Write::write_untracked(p1.locale_signal)) := p2"]),
+        "get_keys": ("LocaleKeys::from_locale(Get::get(p1.locale_signal))", []),
+        "get_keys_untracked": ("LocaleKeys::from_locale(GetUntracked::get_untracked(p1.locale_signal))", []),
+        "scope": ("I18nContext#I18nContext(p1.locale_signal, PhantomData#PhantomData())", []),
     }
-    for name, w in want.items():
-        fn = ast.fn(C, name, impl_self="I18nContext")
-        t = flatp(show(fn.body)) if fn else ""
-        if same(t, w):
-            r.inst("I18nContext::" + name, w)
+    for name, (w, eff) in want.items():
+        got = msum(prog, r"context::I18nContext::<L, S>::%s$" % name)
+        if not got:
+            r.missing("I18nContext::" + name)
+        elif got[0][1] == w and got[0][2] == eff:
+            r.inst("I18nContext::" + name, w + (" ; " + "; ".join(eff) if eff else ""))
         else:
-            r.viol("R1:I18nContext::" + name, "is `%s`, expected `%s`" % (t, w), file=C)
-    fn = ast.fn(C, "scope", impl_self="I18nContext")
-    t = flatp(show(fn.body)) if fn else ""
-    if has(t, "I18nContext{locale_signal:self.locale_signal,scope_marker:PhantomData}"):
-        r.inst("I18nContext::scope", "copies the signal")
-    else:
-        r.viol("R1:I18nContext::scope", "is `%s`" % t, file=C)
+            r.viol("R1:I18nContext::" + name, "does `%s` with effects %s, expected `%s` %s (the context's single locale signal)" % (got[0][1], got[0][2], w, eff), file=C)
     return r
 
 
